@@ -18,6 +18,25 @@ CHECKS = {
     ),
 }
 
+CHECKS.update({
+    "C01": (
+        "stateful property-based testing (Hypothesis rule-based machine) against a multiset reference model + exhaustive short-history enumeration",
+        "Random histories over 4 sketches (adds with boundary multiplicities, list/dict/ngram updates, merges in any tree, save/load) are "
+        "checked after every step against both bounds computed from a multiset model and a probe-derived cell map; all histories up to "
+        "length 4 (quick) / 5 (thorough) over a 3-key alphabet are enumerated for 4 shapes. Exploration: histories are unbounded, the oracle is exact.",
+        "Trusts the multiset model and that one add to an empty probe sketch reveals the counter a key owns per row.",
+        "7/C01",
+    ),
+    "C02": (
+        "stateful property-based testing against a set model with an independent reference hash + exhaustive orderings/partitions/merge trees",
+        "After every step of random histories over 5 sketches the registers must equal those of a fresh sketch fed the distinct keys once and "
+        "those of an independent register model; keys are constructed (hash preimages) to share registers with ranks up to 64-p+1. All "
+        "orderings x 2-way partitions x merge directions of small key sets and all 4-leaf merge-tree shapes are enumerated.",
+        "Trusts the pure-Python FastHash64 reference (anchored to published vectors) and its one-block inverse.",
+        "7/C02",
+    ),
+})
+
 NOT_YET = {}
 
 
